@@ -723,6 +723,10 @@ def expected(case):
                 why = "mocks of %s disagree on %s" % (path, key)
     if not pkgs:
         why = "no packages"
+    for path, pk in pkgs.items():
+        for name in pk["interfaces"]:
+            if name not in SRC[path[len(MOD) + 1:]]:
+                why = "interface %s listed for %s is not declared there" % (name, path)
     return {"kind": "err" if why else "ok", "why": why, "mocks": mocks, "files": files}
 
 
@@ -732,6 +736,10 @@ def file_outcome(case, ms):
         vals = {json.dumps(m[key], sort_keys=True) for m in ms}
         return len(vals) == 1
     verdicts = []
+    if not (ms[0]["template"] in ("matryer", "testify") or re.search(r"/probes/probe_\d+\.templ$", ms[0]["template"])):
+        verdicts.append(False)          # no such template (uniform in a file by Append)
+    if agreed("formatter") and ms[0]["formatter"] not in ("goimports", "gofmt", "noop"):
+        verdicts.append(False)
     if ms[0]["path"] in case["existing"]:
         if not agreed("force-file-write"):
             return None
@@ -893,6 +901,34 @@ def coq_bytes(b):      # noqa: F811  (shadows common.coq_bytes on purpose)
     return INTERN[b]
 
 
+def sharded_mismatches(ctx, terms, shard=16, tag="cases"):
+    """Like common.coq_mismatches, but every shard file defines only the strings it uses."""
+    import common
+    names = {n: b for b, n in INTERN.items()}
+    shards = [terms[i:i + shard] for i in range(0, len(terms), shard)]
+
+    def one(k):
+        used = sorted(set(re.findall(r"\bs\d+\b", " ".join(shards[k]))), key=lambda x: int(x[1:]))
+        defs = "\n".join("Definition %s : str := %s." % (n, common.coq_bytes(names[n])) for n in used if n in names)
+        body = "Definition cases := [\n%s\n]." % ";\n".join(shards[k])
+        q = "Definition M := Eval vm_compute in (mismatches cases).\nPrint M."
+        rc, out, err = coq_eval(ctx, "%s_%d" % (tag, k), "From Mk Require Import Lib.Bytes %s.\n%s\n%s" % (HARNESS, ZIMPORT, defs), body, q)
+        if rc != 0:
+            return k, None, err[-3000:]
+        flat = " ".join(out.split())
+        m = re.search(r"M = \[(.*?)\]\s*:", flat)
+        if not m:
+            return k, None, "unparsable coqc output: " + flat[:500]
+        return k, [int(x.replace("%nat", "")) for x in m.group(1).split(";") if x.strip()], None
+    bad, errs = [], []
+    for k, idx, err in pmap(one, list(range(len(shards)))):
+        if err:
+            errs.append("shard %d: %s" % (k, err))
+        else:
+            bad.extend(k * shard + i for i in idx)
+    return sorted(bad), errs
+
+
 def intern_defs():
     import common
     return ZIMPORT + "\n" + "\n".join("Definition %s : str := %s." % (n, common.coq_bytes(b)) for b, n in INTERN.items())
@@ -1019,12 +1055,13 @@ def case_term(case, base, obs):
     flags = {"ptr": dict(case["flags"]), "td": None, "rt": None, "esr": None}
     tdk = "None" if case["tdkeys"] is None else "(Some (%s, %s))" % (coq_strs(case["tdkeys"][0]), coq_strs(case["tdkeys"][1]))
     return ("{| k_env := %s; k_file := %s; k_flags := %s; k_pkgs := %s; k_disc := %s; k_src := %s; k_rx := %s; "
-            "k_existing := %s; k_schemas := %s; k_expand := %s; k_sigkeys := %s; k_tdkeys := %s; k_show := %s; k_gen := %s |}") % (
+            "k_existing := %s; k_schemas := %s; k_templates := %s; k_expand := %s; k_sigkeys := %s; k_tdkeys := %s; k_show := %s; k_gen := %s |}") % (
         coq_cfg(case["env"], env=True), coq_cfg(case["file"]), coq_cfg(flags), coq_pkgs(case),
         coq_list("(%s, %s)" % (coq_bytes(MOD + "/" + p), coq_strs([MOD + "/" + s for s in subs])) for p, subs in SUBS.items()),
         coq_list("(%s, %s)" % (coq_bytes(MOD + "/" + rel), coq_strs(ifs)) for rel, ifs in SRC.items()),
         rx, coq_strs(case["existing"]),
         coq_list("(%s, %s)" % (coq_bytes(u), coq_opt(rej, coq_strs)) for u, rej in sorted(case["schemas"].items())),
+        coq_strs([probe_url(base, i) for i in range(NPROBE)] + ["matryer", "testify"]),
         coq_list(ex),
         coq_list("(%s, %s)" % (coq_bytes(MOD + "/" + p), coq_bytes(t)) for p, t in SIGKEYS),
         tdk, coq_show(obs.get("show")), coq_gen(case, base, obs))
@@ -1098,7 +1135,7 @@ def shrink(ctx, base, case, fails):
 
 
 # ------------------------------------------------------------------ the check
-STREAMS_QUICK = [("main", 120), ("conflict", 8), ("schema", 30), ("force", 24), ("leak", 24), ("builtin", 24)]
+STREAMS_QUICK = [("main", 105), ("conflict", 8), ("malformed", 12), ("schema", 26), ("force", 20), ("leak", 20), ("builtin", 20)]
 
 
 def schema_per_template_ok(exp):
@@ -1111,8 +1148,31 @@ def schema_per_template_ok(exp):
     return True
 
 
+def gen_malformed(rng, base):
+    """A valid tree with one thing wrong; the run must fail."""
+    c = gen_valid(rng, base, "main")
+    c["stream"] = "malformed"
+    kind = rng.choice(["formatter", "template", "template-file", "interface"])
+    if kind == "interface":
+        path = rng.choice(sorted(c["pkgs"]))
+        pk = c["pkgs"][path] or {"config": None, "interfaces": None}
+        pk["interfaces"] = pk["interfaces"] or {}
+        pk["interfaces"]["Zz"] = rng.choice([None, {"config": new_cfg(), "configs": None}])
+        c["pkgs"][path] = pk
+    else:
+        key = "formatter" if kind == "formatter" else "template"
+        val = {"formatter": "gofumpt", "template": "mockery", "template-file": "file://%s/probes/nosuch.templ" % base}[kind]
+        for lv, cfg in all_levels(c):
+            cfg["ptr"].pop(key, None)
+        c["file"]["ptr"][key] = val
+    c["malformed"] = kind
+    return c
+
+
 def gen_valid(rng, base, stream):
     """Mostly valid inputs: main streams reject trees whose mocks collide in one file."""
+    if stream == "malformed":
+        return gen_malformed(rng, base)
     for _ in range(30):
         s = "main" if stream == "conflict" else stream
         c = gen_case(rng, base, s)
@@ -1208,7 +1268,7 @@ def check(ctx, only=None):
         if e:
             fails[i] = e
     terms = [case_term(c, base, o) for c, o in zip(cases, obs)]
-    bad, cerrs = coq_mismatches(ctx, HARNESS, terms, shard=40, extra_import=intern_defs())
+    bad, cerrs = sharded_mismatches(ctx, terms, shard=16)
     t3 = time.time()
     # ---- classification: one violation per failure class, shrunk within the class
     by_class = {}
@@ -1236,7 +1296,7 @@ def check(ctx, only=None):
         detail = []
         for i in bad[:3]:
             def fails_model(cc, oo):
-                b2, e2 = coq_mismatches(ctx, HARNESS, [case_term(cc, base, oo)], extra_import=intern_defs())
+                b2, e2 = sharded_mismatches(ctx, [case_term(cc, base, oo)], tag="one")
                 return bool(b2 or e2)
             small = shrink(ctx, base, cases[i], fails_model)
             so = run_case(ctx, base, small, "final")
